@@ -21,7 +21,8 @@ class C07(c01.C01):
     assumptions = ['rates are never 1.0 in judged periods (what the test-suite already covers)']
     required_counters = ('models.judged', 'fx_net_positions_not_zero_in_numeraire.judged',
                          'fx_position_not_declared_cross_currency_flows.judged', 'cross_currency_credit.judged',
-                         'refusal.judged')
+                         'refusal.judged',
+                         'models.judged.with_two_foreign_suppliers_of_one_market')
     which = ('fx', 'ledger', 'zone')
 
     def n_cases(self, tier):
@@ -29,6 +30,12 @@ class C07(c01.C01):
 
     def make_case(self, rng, idx, tier):
         case = c01.gen_case(rng, idx, tier, emphasis='fx')
+        if idx % 8 == 2:
+            # one market with suppliers from two other currency zones (unequal shares)
+            sp3 = M.gen_spec(rng, n_zones=3, ext=True, maxtime=4)
+            if M.force_two_foreign_suppliers(rng, sp3):
+                case['spec'] = sp3
+                case['two_foreign_suppliers'] = True
         case['twin_without_ext'] = (idx % 4 == 3)
         if case['twin_without_ext']:
             # a spec whose twin without an external sector is well defined: no gold, no numeraire-zone sector,
@@ -48,6 +55,8 @@ class C07(c01.C01):
         if case.get('twin_without_ext') and cross and not spec.get('row') and not any(z['gov']['form'] in ('gold', 'gold_cb') for z in spec['zones']):
             return self.run_refusal(case)
         res = c01.solve_and_judge(case, self.which, in_situ=False)
+        if case.get('two_foreign_suppliers') and res['verdict'] in ('held', 'violated'):
+            res.setdefault('counters', {})['models.judged.with_two_foreign_suppliers_of_one_market'] = 1
         if res['verdict'] in ('held', 'violated'):
             res['nontrivial'] = bool(res.get('nontrivial')) and cross > 0
         return res
